@@ -76,6 +76,9 @@ class Check:
     def violation(self, rule, site, key, msg, detail=None):
         self.rules.setdefault(rule, {"instances": 0, "min": 1, "what": ""})["instances"] += 1
         ob = {"rule": rule, "site": site, "verdict": "VIOLATED", "reason": msg, "key": key}
+        if any(v["rule"] == rule and v["site"] == site and v["key"] == key for v in self.violations) or \
+                any(o["rule"] == rule and o["site"] == site and o["key"] == key for o, _ in self.known_hits):
+            return      # same construct seen in another instantiation
         if detail:
             ob["detail"] = detail
         self.obligations.append(ob)
